@@ -12,6 +12,7 @@ import (
 	"context"
 	"strconv"
 	"strings"
+	"sync/atomic"
 
 	"github.com/jig/lisp"
 	"github.com/jig/lisp/simhook"
@@ -117,6 +118,15 @@ var c11Templates = []struct {
 	// the first calls of shared functions that nobody has called yet (their bodies contain macro calls)
 	{"first-call-shared-fn2", `(list (shared-fn2 N) (shared-fn2 1))`},
 	{"first-call-shared-fn3", `(shared-fn3 N)`},
+	// the shared macro is used while (in some runs) another thread defines it again
+	{"use-shared-mac", `(list (shared-mac N) (do (spin 1) (shared-mac (+ N 1))) (shared-mac 1))`},
+	// keywords and code made at run time
+	{"make-keywords", `(let [k (keyword (str "T-k" N))] (list k (get (hash-map k N) k) (keyword "T-fresh") (str (keyword (str "kk" N)))))`},
+	{"read-string-keywords", `(read-string "(:T-a :T-b N {:T-c N})")`},
+	{"fresh-keywords", `(list N (count (str (keyword (str "T-k" (nonce!))))) (count (pr-str (read-string (str "(:r" (nonce!) " :s" (nonce!) " 1)")))))`},
+	{"fresh-keywords2", `(do (spin 1) (let [k (keyword (str "q" (nonce!)))] (list (get (hash-map k N) k) (keyword? k))))`},
+	// a macro whose expansion contains a closure over the macro function's parameter
+	{"macro-closure-over-param", `(do (defmacro T-fix (fn [v] (let [k (fn [] v)] (list k)))) (list (T-fix N) (cond false 0 true (T-fix (+ N 1))) (-> (T-fix 2) (+ N))))`},
 	// an atom of the program's own is printed by one of its threads while another one updates it
 	{"own-atom-printed-while-swapped", `(do (def T-at (atom [N])) (let [f (future (do (swap! T-at conj 1) (spin 1) (swap! T-at conj 2) :done)) s (str T-at)] (do @f (list (count s) (str T-at)))))`},
 	{"own-atom-printed-while-reset", `(let [a (atom (list N)) f (future (do (reset! a (list N N)) (reset! a (list N N N))))] (do (pr-str a) @f (pr-str a)))`},
@@ -169,9 +179,16 @@ func (w *c11World) auxFn(i int, ctx context.Context) func(*Task) {
 	}
 }
 
+// c11Nonce: (nonce!) returns a nine-digit number that no earlier call in this process has returned (names made
+// from it are new to every process-wide table, also after the solo runs).
+var c11Nonce int64
+
 func c11Env(h *Harness) types.EnvType {
 	e := NewEnv()
 	h.Install(e)
+	e.Set(types.Symbol{Val: "nonce!"}, types.Func{Fn: func(ctx context.Context, a []types.MalType) (types.MalType, error) {
+		return int(100000000 + atomic.AddInt64(&c11Nonce, 1)%800000000), nil
+	}})
 	if _, err := lisp.EVAL(context.Background(), mustRead(c11Shared), e); err != nil {
 		panic("c11 shared setup: " + err.Error())
 	}
@@ -254,6 +271,17 @@ func (c11) Run(tp *Tape, opt RunOpt) *RunOut {
 			w.probes = append(w.probes, rs)
 			auxNames = append(auxNames, "reader"+strconv.Itoa(r))
 		}
+	}
+	if tp.Chance(LaneWork, 1, 3) {
+		// a thread that defines the shared macro again and again, always the same: to the others nothing changes
+		var ps []*c11Probe
+		n := 2 + tp.Draw(LaneWork, 5)
+		for k := 0; k < n; k++ {
+			src := "(do (defmacro shared-mac (fn [x] (list '+ x 100))) nil)"
+			ps = append(ps, &c11Probe{ID: "m." + strconv.Itoa(k), Src: src, ast: mustRead(src)})
+		}
+		w.probes = append(w.probes, ps)
+		auxNames = append(auxNames, "macro-redefiner")
 	}
 	if tp.Chance(LaneWork, 2, 3) {
 		var ps []*c11Probe
